@@ -66,18 +66,8 @@ Definition nontrivial_case (inp : list Z) : bool :=
   let T := c_topo (ti_cfg i) in
   wf_topo T && (2 <=? ti_n i) && (ti_n i <=? lenZ (ti_avail i)) && (lenZ (ti_avail i) <? lenZ T).
 
-(* known shape 1: FullPCPUs request, result larger than requested by less than one core, and
-   exactly the result the faithful model predicts for this input (any other overshoot is a
-   new violation) *)
-Definition finding_sig (inp obs : list Z) : Z :=
-  let i := decode inp in
-  match dec_obs obs with
-  | Some (Some s, _, _) =>
-    if (ti_bind i =? 1) && (Z.max 0 (ti_n i) <? lenZ s) && (lenZ s <? Z.max 0 (ti_n i) + cpc (c_topo (ti_cfg i)))
-       && strictly_asc s && subsetb s (ti_avail i) && eq_listZ (run_case inp) obs
-    then 1 else 0
-  | _ => 0
-  end.
+(* no known finding: the FullPCPUs overshoot was fixed in 43d7136 *)
+Definition finding_sig (inp obs : list Z) : Z := 0.
 
 Require Extraction.
 Require Import ExtrOcamlBasic.
